@@ -194,9 +194,9 @@ func TestVerifC07Matchers(t *testing.T) {
 	st := VOpenStream("c07m")
 	defer st.Close()
 
-	nCfg, perCfg, maxRules := 260, 24, 7
+	nCfg, perCfg, maxRules := 400, 24, 7
 	if VThorough() {
-		nCfg, perCfg, maxRules = 2500, 40, 12
+		nCfg, perCfg, maxRules = 5000, 40, 12
 	}
 	nCfg = VEnvInt("C07_NCFG", nCfg)
 	for ci := 0; ci < nCfg; ci++ {
@@ -226,7 +226,10 @@ func TestVerifC07Matchers(t *testing.T) {
 		// ---- request side
 		reqOp := fmt.Sprintf("req %d %s %s", nUp, reqFb, c07RenderOp(reqRules))
 		rp, err := c07BuildReq(dnsCfg, name2id)
-		if err != nil {
+		if err != nil && strings.Contains(err.Error(), "too many routing rules") {
+			// more than MaxMatchSetLen match sets: the size limit is C17's subject, not modelled here
+			stats.Inc("cfg.skipped-over-size-limit")
+		} else if err != nil {
 			st.Emit(reqOp, "builderr")
 		} else {
 			st.Emit(reqOp, c07DumpReq(rp.plainB, rp.plain))
@@ -248,7 +251,11 @@ func TestVerifC07Matchers(t *testing.T) {
 		respOp := fmt.Sprintf("resp %d %s %s", nUp, respFb, c07RenderOp(respRules))
 		sp, err := c07BuildResp(dnsCfg, name2id)
 		if err != nil {
-			st.Emit(respOp, "builderr")
+			if strings.Contains(err.Error(), "too many routing rules") {
+				stats.Inc("cfg.skipped-over-size-limit")
+			} else {
+				st.Emit(respOp, "builderr")
+			}
 			continue
 		}
 		st.Emit(respOp, c07DumpResp(sp.plainB, sp.plain))
